@@ -117,7 +117,7 @@ def main():
         dst = os.path.join(VERIF, 'seeded', a.keep_as)
         os.makedirs(dst, exist_ok=True)
         for f in ('patch.diff', 'demo.py', 'notes.md'):
-            if os.path.exists(os.path.join(seed, f)):
+            if os.path.exists(os.path.join(seed, f)) and os.path.abspath(seed) != os.path.abspath(dst):
                 shutil.copy(os.path.join(seed, f), dst)
         meta = {'breaks_property': a.prop, 'needs_to_manifest': a.needs or 'see notes.md', 'confirmed': ok,
                 'what_was_run': res['ran'], 'detected_by': res['detected_by'], 'checks': res['checks'],
@@ -129,7 +129,12 @@ def main():
             old_checks.update(meta['checks'])
             meta['checks'] = old_checks
             meta['detected_by'] = sorted(c for c, r in old_checks.items() if r['exit'] == 1)
-            meta['what_was_run'] = old.get('what_was_run', []) + meta['what_was_run']
+            meta['what_was_run'] = (old.get('what_was_run', []) + meta['what_was_run'])[-16:]
+            for k_ in ('status', 'needs_to_manifest'):
+                if k_ in old and (k_ == 'status' or not a.needs):
+                    meta[k_] = old[k_]
+            if str(old.get('status', '')).startswith('superseded'):
+                meta['confirmed'] = False
         json.dump(meta, open(mp, 'w'), indent=1)
     return 0
 
